@@ -80,6 +80,12 @@ func (t ChecksumType) ChecksumSize() int {
 	}
 }
 
+// valid returns whether this is a checksum type known to this implementation.
+// The type byte of a received fragment is supplied by the peer.
+func (t ChecksumType) valid() bool {
+	return t < checksumCount
+}
+
 // pool returns the sync.Pool used to pool checksums for this type.
 func (t ChecksumType) pool() *sync.Pool {
 	return &checksumPools[int(t)]
